@@ -15,6 +15,8 @@ CLAIMED = {
             "P_C07 accepting the model on all valid cases is checked at run time, not yet a theorem"),
     "C08": ("6 C08", "C08_modes_str / C08_modes_pair / C08_modes_strict_only / C08_no_other: for each of the 14 functions, default returns a value or None, passthrough returns the same value or the input, strict returns the same value or raises a library ValueError-derived error, and no other exception escapes; for all strict converters and all strings.",
             "exceptions are compared by family (library ValueError-derived class defined in curies / anything else), not by exact subclass or message"),
+    "C20": ("6 C20", "C20_prefix / C20_curie: with the patterns and re methods that the translator reads from w3c.py on every run (GenObl_C20: Gen = W3C by reflexivity), is_w3c_prefix equals the NCName grammar and is_w3c_curie equals the documented CURIE grammar for ALL strings and every whitespace table in which '/' is not whitespace; the derivative matcher is proved correct against a declarative regex semantics (deriv_ok, fullmatch_ok, match_ok). C20_match_refuted documents defect D9.",
+            "the control flow of is_w3c_curie (bracket test, strip test, partition) is hand-modelled and tied by the exhaustive correspondence block; semantics of Python's re engine is modelled for the subset {literals, classes, \\s, *, ?, |, groups, ^ and $ at the ends, match/fullmatch}"),
 }
 NOT_YET = {}
 
